@@ -2,6 +2,7 @@ package monitor
 
 import (
 	"bytes"
+	"errors"
 	"fmt"
 	"io"
 	"math"
@@ -434,16 +435,48 @@ var readFamilies = []family{
 		}, []string{"ReadString", "ReadStringBytes"}},
 	{"object", func(t rjson.TokenType) bool { return t == rjson.ObjectStartType },
 		[]func([]byte) error{func(d []byte) error { _, _, e := rjson.ReadObject(d); return e },
-			func(d []byte) error { _, _, e := vr13.ReadObject(d); return e }}, []string{"ReadObject", "ValueReader(long-lived).ReadObject"}},
+			func(d []byte) error { _, _, e := vr13.ReadObject(d); return e },
+			func(d []byte) error {
+				if !nullish(d) {
+					return errNotObserved
+				}
+				vr13w.ReadObject(wideObj13)
+				_, _, e := vr13w.ReadObject(d)
+				return e
+			}}, []string{"ReadObject", "ValueReader(long-lived).ReadObject", "ValueReader(right after a 40-member object).ReadObject"}},
 	{"array", func(t rjson.TokenType) bool { return t == rjson.ArrayStartType },
 		[]func([]byte) error{func(d []byte) error { _, _, e := rjson.ReadArray(d); return e },
-			func(d []byte) error { _, _, e := vr13.ReadArray(d); return e }}, []string{"ReadArray", "ValueReader(long-lived).ReadArray"}},
+			func(d []byte) error { _, _, e := vr13.ReadArray(d); return e },
+			func(d []byte) error {
+				if !nullish(d) {
+					return errNotObserved
+				}
+				vr13w.ReadArray(wideArr13)
+				_, _, e := vr13w.ReadArray(d)
+				return e
+			}}, []string{"ReadArray", "ValueReader(long-lived).ReadArray", "ValueReader(right after a 40-element array).ReadArray"}},
 }
 
 // vr13 is one ValueReader reused for every input of the worker: the typed Read METHODS are Read
 // functions too, and their type exclusivity must not depend on what the reader saw before
 // (seeded change C13r2-m1 let a reused reader's ReadObject accept null).
 var vr13 rjson.ValueReader
+
+var errNotObserved = errors.New("variant not run on this input")
+
+// nullish: the first non-whitespace byte is 'n' (the primed variants below only matter for null).
+func nullish(d []byte) bool {
+	p := refmodel.SkipWS(d, 0)
+	return p < len(d) && d[p] == 'n'
+}
+
+// vr13w is a second long-lived reader that reads a wide container right before every call under
+// observation (size hints carried into the null check; seeded change C13r8-m2).
+var (
+	vr13w     rjson.ValueReader
+	wideObj13 = []byte(`{"k0":0,"k1":1,"k2":2,"k3":3,"k4":4,"k5":5,"k6":6,"k7":7,"k8":8,"k9":9,"k10":0,"k11":1,"k12":2,"k13":3,"k14":4,"k15":5,"k16":6,"k17":7,"k18":8,"k19":9,"k20":0,"k21":1,"k22":2,"k23":3,"k24":4,"k25":5,"k26":6,"k27":7,"k28":8,"k29":9,"k30":0,"k31":1,"k32":2,"k33":3,"k34":4,"k35":5,"k36":6,"k37":7,"k38":8,"k39":9}`)
+	wideArr13 = []byte(`[0,1,2,3,4,5,6,7,8,9,0,1,2,3,4,5,6,7,8,9,0,1,2,3,4,5,6,7,8,9,0,1,2,3,4,5,6,7,8,9]`)
+)
 
 func checkExclusive(c *Ctx, cs *h.Case) {
 	d := cs.Input
